@@ -100,6 +100,25 @@ SpellingDeviation(T, M, SM, order, among, p) ==
       t1 == TokenAt1(T, M, SM, order, among, p)
   IN t0 # t1
 
+\* Two ways in which L1 leaves L0, told apart by the FIRST matching terminal of the two scanners:
+\*  "spelling": both scanners find the same regexp first; L0 names the same-priority string terminal that matches the text,
+\*              the code asks only the strings whose SPELLING the regexp matches (case-insensitive keywords)
+\*  "embedded": a string terminal that some same-priority regexp matches in isolation was REMOVED from the scanner, and here
+\*              that regexp is not the one that produces the token - another terminal sorts between the two
+\*              (A: "a", B: "a"i, C: /./ : 'a' is typed B), or the regexp does not match in this context
+\*              (NAME: /(?<!1)[a-z]+/, IF: "if", text '1if': no token at 1)
+DevKind(T, M, SM, order, among, p) ==
+  IF FirstMatch(M, order, among, p, 1) = FirstMatch(M, order, among \ Embedded(T, SM, among), p, 1) THEN "spelling" ELSE "embedded"
+RECURSIVE DevKindFrom(_, _, _, _, _, _, _)
+DevKindFrom(T, M, SM, order, among, p, n) ==
+  IF p >= n THEN "spelling"
+  ELSE LET a == TokenAt0(T, M, order, among, p)
+           b == TokenAt1(T, M, SM, order, among, p)
+       IN IF a # b THEN DevKind(T, M, SM, order, among, p)
+          ELSE IF a[1] = 0 THEN "spelling" ELSE DevKindFrom(T, M, SM, order, among, a[2], n)
+EmbeddedDeviation(T, M, SM, order, among, p) ==
+  SpellingDeviation(T, M, SM, order, among, p) /\ DevKind(T, M, SM, order, among, p) = "embedded"
+
 \* BasicLexer.next_token: skip ignored tokens; <<index, start, end>> | <<0, error offset, 0>> | <<-1, n, n>> at the end
 RECURSIVE NextTok1(_, _, _, _, _, _, _)
 NextTok1(T, M, SM, order, among, p, n) ==
